@@ -30,7 +30,8 @@ def c01(q):
                  "their truncations, extensions, single and double header mutations (length, tag, offset, bool, utf-8), byte flips; plus an "
                  "exhaustive sweep of every length 0..MIN_SIZE+3*ALIGN+elem x every address offset 0..ALIGN per shape. "
                  "validate / from_bytes / from_mut_bytes run under catch_unwind in tail/island guarded buffers; natively (debug+release), under Miri "
-                 "(byte-precise out-of-slice detection)" + ("" if q else ", ASan and memcheck") + ". A case is non-trivial when the input passed the "
+                 "(byte-precise out-of-slice detection)" + ("" if q else ", ASan and memcheck") + ". Island cases are validated again with the bytes around the slice "
+                 "replaced by 0x00 and by 0xFF: the answer must be the same (native over-read detector). A case is non-trivial when the input passed the "
                  "top-level size/alignment gate of its type (unchecked code ran); distinct = distinct (shape, input class, length class, bytes)."),
         "exhaustive_note": "the 'sweep' sub-workload enumerates its (shape, length, offset) space completely; contents are sampled",
         "gates": ["passed-gate", "outcome:ok", "outcome:err"],
@@ -185,7 +186,7 @@ def c05(q):
 def c11(q):
     return _hist(q, "Oracle: sequential model of a capacity-bounded Vec / String (capacity computed by the reference layout from the bytes available to the container): result of every operation, len, capacity, "
                     "remaining, is_empty, is_full, contents, size(), ==/partial_cmp against twins, validity and re-map equality after every step; documented panics (index out of range, resize beyond capacity) "
-                    "are modelled as refusals.", ["state:empty", "state:full", "state:len=L::MAX", "twin-compared", "op:push:refused", "op:push_slice:refused", "op:push_str:refused", "op:remove:ret", "op:resize:done"])
+                    "are modelled as refusals. One history in 16 first tries to construct the value from an initialiser with more elements than a one-byte length type can count: it must be refused.", ["construct-beyond-length-type-refused", "state:empty", "state:full", "state:len=L::MAX", "twin-compared", "op:push:refused", "op:push_slice:refused", "op:push_str:refused", "op:remove:ret", "op:resize:done"])
 
 
 def c12(q):
@@ -226,11 +227,12 @@ def c07(q):
     return {
         "level": "exploration",
         "rule": ("cases = (message type out of ~25 zoo shapes flagged as messages, sequence of 0..8 (quick) / 0..64 messages, max_msg_len in {largest, +1, x2, x4+3}, write chunk script, read chunk script, "
-                 "public io() constructors or monitored IoBuffer wrapper). 'compose' sub-workload: for small streams (<= 12 bytes) EVERY composition of the stream into read chunks / write chunks (2^(n-1)) is run. "
+                 "public io() constructors or monitored IoBuffer wrapper; a third of the cases use the send guard's other paths: message replaced through DerefMut before send(), "
+                 "an initialised guard dropped unsent, raw bytes + assume_init(); one case in 16 is a 'trickle': 24+ messages in uninterrupted short writes). 'compose' sub-workload: for small streams (<= 12 bytes) EVERY composition of the stream into read chunks / write chunks (2^(n-1)) is run. "
                  "'threaded': two real threads over a bounded Mutex+Condvar pipe. Oracle: every send Ok, sink == concatenation of reference images (decoded), received sequence == sent sequence then Closed, "
                  "no panic, window start aligned, skip(count) <= occupied. Distinct = distinct (shape, chunk scripts, stream length); every case is non-trivial (bytes cross the pipe)."),
         "exhaustive_note": "chunk compositions are exhaustive for each small stream of the 'compose' sub-workload",
-        "gates": ["mode:blocking", "mode:threaded", "compose-cases", "messages-received", "window-observations", "non-default-buffer-capacity"],
+        "gates": ["mode:blocking", "mode:threaded", "compose-cases", "messages-received", "window-observations", "non-default-buffer-capacity", "messages-replaced-through-send-guard", "guards-dropped-unsent", "messages-written-as-raw-bytes", "trickle-cases"],
         "jobs": [
             {"sub": "random", "cfgs": ["debug", "release"], "cases": 40_000 if q else 1_000_000, "ms": 30_000 if q else 300_000},
             {"sub": "compose", "cfgs": ["debug"], "cases": 30_000 if q else 600_000, "ms": 30_000 if q else 300_000},
